@@ -1,5 +1,6 @@
 //! family `mtype` / `tid`: message type field and transaction id (C19)
 use crate::util::*;
+use stun_types::attribute::RawAttribute;
 use stun_types::message::*;
 
 pub fn cls_index(c: MessageClass) -> u8 {
@@ -96,10 +97,28 @@ pub fn exec(kv: &Kv) -> String {
             let t = MessageType::from_class_method(cls_from(c), m);
             let mut w = [0u8; 2];
             t.write_into(&mut w);
+            // the type field as the builder writes it at the head of a message: a small message always, and for a
+            // few methods a message whose attributes exceed the 16-bit length field (the length must not spill
+            // into the type field)
+            let small = Message::builder(t, 7u128.into()).build();
+            let big = if m % 512 == 0 || m == 0xfff {
+                let v = vec![0x5au8; 40000];
+                let mut b = Message::builder(t, 7u128.into());
+                b.add_raw_attribute(RawAttribute::new(0x7f01.into(), &v)).unwrap();
+                b.add_raw_attribute(RawAttribute::new(0x7f02.into(), &v)).unwrap();
+                let mut dest = vec![0xffu8; b.byte_len()];
+                let _ = b.write_into(&mut dest);
+                let built = b.build();
+                if built[..2] == dest[..2] { built[..2].to_vec() } else { vec![built[0] ^ dest[0], 0xee] }
+            } else {
+                small[..2].to_vec()
+            };
             format!(
-                "wire={} wire2={} cls={} meth={} hc={} hm={} resp={}",
+                "wire={} wire2={} wire3={} wire4={} cls={} meth={} hc={} hm={} resp={}",
                 hex(&t.to_bytes()),
                 hex(&w),
+                hex(&small[..2]),
+                hex(&big),
                 cls_index(t.class()),
                 t.method(),
                 // the class / method queries for every class and for the neighbouring methods
